@@ -52,7 +52,7 @@ PROP = {
             {"name": "c01.days"},   # every accepted day: jdn, weekday, day-of-year, back conversion
             {"name": "c01.lens"},   # year length, leap flag, 12 month lengths for every year
         ],
-        "ops": c01_ops,
+        "ops": with_extra(c01_ops, eq_kinds=(1, 2, 3, 5, 17, 18)),
         "exhaustive": True,
         "rule": "streams: c01.grid = all 4,620,924 (year -1..10000, month 0..13, day 0..32) triples (acceptance bitmask per month), "
                 "c01.days = every accepted date with day number, weekday, day-of-year and the date its day number maps back to, "
